@@ -51,6 +51,7 @@ ASSUMPTIONS = ['ASCII distance strings (Python \\d and float() also accept other
                'positive finite cell sizes; Python float / int (binary64 / int64) arguments to the metric functions — np.float32 arguments make Numba compile a float32 '
                'signature (not modelled), integer coordinate differences beyond 3.03e9 overflow int64 in x*x (not explored)',
                'the model is the behaviour after fixes/C19-radius-positional-str.diff (numeric radii written positionally) and fixes/C19-unit-mile.diff',
+               'the model is the behaviour after fixes/C19-manhattan-unsigned-wrap.diff (the smaller coordinate is subtracted from the larger)',
                'the model is the behaviour after fixes/C19-get-distance-finite.diff (nan / inf distances rejected)',
                'coordinates away from the subnormal range for "zero iff coincident" (x*x underflows below ~1e-162)']
 PARTIAL = [
@@ -95,6 +96,7 @@ LEVEL_NOTE = ('Correspondence with the extracted model at large kernel sizes is 
 KEY_NANINF = 'get-distance-accepts-nan-inf'
 KEY_MILE = 'unit-mile-rejected'
 KEY_EXP = 'circle-kernel-exponent-radius'
+KEY_UNSIGNED = 'manhattan-unsigned-args-wrap'
 # property text: "radius strings in metres, kilometres, feet or miles convert to metres" — written independently of the source
 ORACLE_UNITS = {'meter': '1', 'meters': '1', 'm': '1', 'foot': '0.3048', 'feet': '0.3048', 'ft': '0.3048',
                 'mile': '1609.344', 'miles': '1609.344', 'mls': '1609.344', 'ml': '1609.344',
@@ -1083,6 +1085,311 @@ def run_large_kernels(ctx, conv, lines, cmp):
 
 
 # ---------------------------------------------------------------------------
+# 7. theme streams (appended): scalar dtypes / precision, thresholds one ulp around, call sequences, dask / layouts / derived
+#    rasters for calc_cellsize, coordinates, degenerate shapes
+# ---------------------------------------------------------------------------
+def lowprec_metric_oracle(name, f, A, B, C, rel):
+    """metric axioms for arguments of a narrow NumPy scalar type (Numba compiles that signature and may compute in
+    float32): tolerances relative to the magnitudes involved"""
+    def d(P, Q):
+        return float(f(P[0], Q[0], P[1], Q[1]))
+    dab, dba, dbc, dac, daa = d(A, B), d(B, A), d(B, C), d(A, C), d(A, A)
+    scale = max(1.0, abs(dab), abs(dbc), abs(dac))
+    if abs(dab - dba) > rel * scale:
+        return '%s not symmetric: %r vs %r for A=%r B=%r' % (name, dab, dba, A, B)
+    if daa != 0:
+        return '%s d(A,A)=%r for A=%r' % (name, daa, A)
+    if (dab == 0) != (tuple(float(v) for v in A) == tuple(float(v) for v in B)):
+        return '%s d(A,B)=%r for A=%r B=%r (zero iff coincident)' % (name, dab, A, B)
+    dx, dy = Fraction(float(A[0])) - Fraction(float(B[0])), Fraction(float(A[1])) - Fraction(float(B[1]))
+    exact = float(abs(dx) + abs(dy)) if name == 'manhattan' else math.sqrt(float(dx * dx + dy * dy))
+    if abs(dab - exact) > rel * max(1.0, exact):
+        return '%s d(A,B)=%r, exact %r for A=%r B=%r (%s arguments)' % (name, dab, exact, A, B, type(A[0]).__name__)
+    if dac > dab + dbc + rel * scale:
+        return '%s triangle inequality: %r > %r + %r for A=%r B=%r C=%r' % (name, dac, dab, dbc, A, B, C)
+    return None
+
+
+def raster_cellsize_oracle(raster, default_unit, tbl):
+    """property text on the raster's OWN attrs / coordinates: attrs res (pair or number) wins, else (max - min) / (n - 1);
+    converted to metres; y size not negative.  Returns None (unknown unit) or (Fraction, Fraction)"""
+    res = raster.attrs.get('res')
+    if isinstance(res, (tuple, list, np.ndarray)) and len(res) == 2:
+        rx, ry = Fraction(float(res[0])), Fraction(float(res[1]))
+    elif isinstance(res, (int, float)):
+        rx = ry = Fraction(float(res))
+    else:
+        xs = np.asarray(raster[raster.dims[-1]].values, dtype='float64')
+        ys = np.asarray(raster[raster.dims[-2]].values, dtype='float64')
+        rx = (Fraction(float(xs.max())) - Fraction(float(xs.min()))) / (raster.shape[-1] - 1)
+        ry = (Fraction(float(ys.max())) - Fraction(float(ys.min()))) / (raster.shape[-2] - 1)
+    u = raster.attrs.get('unit', default_unit)
+    f = ORACLE_UNITS.get(u) or (repr(tbl[u]) if u in tbl else None)
+    if f is None:
+        return None
+    return rx * Fraction(f), abs(ry * Fraction(f))
+
+
+def raster_cellsize_line(raster):
+    res = raster.attrs.get('res')
+    h, w = raster.shape[-2:]
+    if isinstance(res, (tuple, list, np.ndarray)) and len(res) == 2:
+        full = 'pair %s %s %s %s %s %s %s %s' % (hx(res[0]), hx(res[1]), hx(0), hx(1), hx(max(w - 1, 1)), hx(0), hx(1), hx(max(h - 1, 1)))
+    elif isinstance(res, (int, float)):
+        full = 'scalar %s %s %s %s %s %s %s %s' % (hx(res), hx(res), hx(0), hx(1), hx(max(w - 1, 1)), hx(0), hx(1), hx(max(h - 1, 1)))
+    else:
+        xs = np.asarray(raster[raster.dims[-1]].values, dtype='float64')
+        ys = np.asarray(raster[raster.dims[-2]].values, dtype='float64')
+        full = 'none %s %s %s %s %s %s %s %s' % (hx(0), hx(0), hx(xs.min()), hx(xs.max()), hx(w - 1), hx(ys.min()), hx(ys.max()), hx(h - 1))
+    u = raster.attrs.get('unit')
+    return 'cellsize_full %s %d %s' % (full, 0 if u is None else 1, sx(u or ''))
+
+
+def check_raster_cellsize(ctx, conv, raster, what, lines, cmp, default_unit, tbl):
+    case = {'family': 'cellsize-theme', 'what': what, 'shape': list(raster.shape), 'attrs': {k: jsonable_attr(v) for k, v in raster.attrs.items()}}
+    ctx.case(case)
+    attrs0 = {k: (np.array(v, copy=True) if isinstance(v, np.ndarray) else v) for k, v in raster.attrs.items()}
+    coords0 = {k: np.array(raster[k].values, copy=True) for k in raster.dims if k in raster.coords}
+    r = call(conv.calc_cellsize, raster)
+    exp = raster_cellsize_oracle(raster, default_unit, tbl)
+    if exp is not None:
+        if r[0] != 'ok':
+            ctx.violation('oracle', 'calc_cellsize (%s) raised %s: %s' % (what, r[1], r[2]), case)
+        else:
+            cx, cy = float(r[1][0]), float(r[1][1])
+            if abs(Fraction(cx) - exp[0]) > abs(exp[0]) * Fraction(1, 10 ** 13) or abs(Fraction(cy) - exp[1]) > abs(exp[1]) * Fraction(1, 10 ** 13) or cy < 0:
+                ctx.violation('oracle', 'calc_cellsize (%s) = %r, expected (%r, %r) metres from the raster\'s own attrs / coordinates' % (
+                    what, (cx, cy), float(exp[0]), float(exp[1])), case)
+    for k, v in coords0.items():
+        if not np.array_equal(np.asarray(raster[k].values), v):
+            ctx.violation('oracle', 'calc_cellsize (%s) modified coordinate %r' % (what, k), case)
+    if set(raster.attrs) != set(attrs0) or any(not np.array_equal(np.asarray(raster.attrs[k], dtype=object), np.asarray(attrs0[k], dtype=object))
+                                               for k in attrs0):
+        ctx.violation('oracle', 'calc_cellsize (%s) modified attrs' % what, case)
+    lines.append(raster_cellsize_line(raster))
+    cmp.append(('cellsize', r, case))
+    return r
+
+
+def jsonable_attr(v):
+    if isinstance(v, np.ndarray):
+        return v.tolist()
+    if isinstance(v, tuple):
+        return list(v)
+    return v
+
+
+def run_themes(ctx, prox, conv, lines, cmp):
+    rng = ctx.rng
+    default_unit, units_tbl = read_units(os.environ.get('VERIF_REPO', '/repo'))
+    tbl = dict(units_tbl)
+    quick = ctx.quick()
+    # ---- (2) scalar argument types of the metric functions ----
+    fns = (('euclidean', prox.euclidean_distance), ('manhattan', prox.manhattan_distance))
+    for T, rel, exact in ((np.float64, 0, True), (np.int64, 0, True), (np.float32, 1e-5, False), (np.int32, 1e-12, False),
+                          (np.int16, 1e-12, False), (np.uint8, 1e-12, False)):
+        for q in range(6 if quick else 60):
+            lo, hi = (0, 200) if T is np.uint8 else (-1000, 1000)
+            if np.issubdtype(T, np.integer):
+                pts = [(T(rng.randint(lo, hi)), T(rng.randint(lo, hi))) for _ in range(3)]
+            else:
+                pts = [(T(rng.randint(lo * 8, hi * 8) / 8.0), T(rng.randint(lo * 8, hi * 8) / 8.0)) for _ in range(3)]
+            if q % 3 == 0:
+                pts[1] = pts[0]
+            A, B, C = pts
+            for name, f in fns:
+                case = {'family': 'scalar-types', 'metric': name, 'type': T.__name__, 'A': [float(v) for v in A], 'B': [float(v) for v in B],
+                        'C': [float(v) for v in C]}
+                ctx.case(case)
+                ctx.count('theme/scalar-types/%s' % T.__name__)
+                if T is np.uint8 and name in ('euclidean', 'manhattan'):
+                    # unsigned differences wrap in the compiled code only if Numba keeps uint8; it promotes to int64 — checked by the oracle
+                    pass
+                w = lowprec_metric_oracle(name, f, A, B, C, rel or 1e-15)
+                if w:
+                    ctx.violation('oracle', w, case, key=KEY_UNSIGNED if (T is np.uint8 and name == 'manhattan' and '+19' in w) else None)
+                if exact:
+                    for P, Q in ((A, B), (B, C), (A, C)):
+                        lines.append('%s %s %s %s %s' % ('euclid' if name == 'euclidean' else 'manhattan', hx(P[0]), hx(Q[0]), hx(P[1]), hx(Q[1])))
+                        cmp.append(('float', float(f(P[0], Q[0], P[1], Q[1])), case))
+        # great circle with that argument type
+        for q in range(4 if quick else 40):
+            if np.issubdtype(T, np.integer):
+                P = (T(rng.randrange(0, 180, 15) if T is np.uint8 else rng.randrange(-180, 181, 15)), T(rng.randrange(0, 91, 15) if T is np.uint8 else rng.randrange(-90, 91, 15)))
+                Q = (T(rng.randrange(0, 180, 15) if T is np.uint8 else rng.randrange(-180, 181, 15)), T(rng.randrange(0, 91, 15) if T is np.uint8 else rng.randrange(-90, 91, 15)))
+            else:
+                P = (T(rng.randrange(-1440, 1441) / 8.0), T(rng.randrange(-720, 721) / 8.0))
+                Q = (T(rng.randrange(-1440, 1441) / 8.0), T(rng.randrange(-720, 721) / 8.0))
+            case = {'family': 'scalar-types', 'metric': 'great_circle', 'type': T.__name__, 'P': [float(v) for v in P], 'Q': [float(v) for v in Q]}
+            ctx.case(case)
+            ctx.count('theme/scalar-types/%s' % T.__name__)
+            r1, r2 = gc_call(prox, P, Q), gc_call(prox, Q, P)
+            Pf, Qf = tuple(float(v) for v in P), tuple(float(v) for v in Q)
+            if r1[0] != 'ok' or r2[0] != 'ok':
+                ctx.violation('oracle', 'great_circle with %s arguments %r %r: %r' % (T.__name__, Pf, Qf, r1), case)
+                continue
+            tolr = 1e-5 if T in (np.float32, np.int16, np.uint8) else 4e-8      # narrow types: np.radians works in float32
+            expd = R_EARTH * central_angle(Pf, Qf)
+            if abs(r1[1] - r2[1]) > tolr * R_EARTH or abs(r1[1] - expd) > tolr * R_EARTH or r1[1] < 0 or r1[1] > math.pi * R_EARTH * (1 + tolr):
+                ctx.violation('oracle', 'great_circle with %s arguments %r %r = %r / %r, radius x central angle = %r' % (
+                    T.__name__, Pf, Qf, r1[1], r2[1], expd), case)
+            if exact:
+                lines.append('gc %s %s %s %s %s' % (hx(P[0]), hx(Q[0]), hx(P[1]), hx(Q[1]), hx(R_EARTH)))
+                cmp.append(('gc', r1, case))
+    # interleaved signatures: a float call, an int call, the float call again -> identical results
+    for q in range(10 if quick else 100):
+        a = (rng.uniform(-50, 50), rng.uniform(-50, 50), rng.uniform(-50, 50), rng.uniform(-50, 50))
+        for name, f in fns + (('great_circle', prox.great_circle_distance),):
+            v1 = f(*a)
+            f(3, 4, 5, 6)
+            f(np.float32(1.5), np.float32(2.5), np.float32(0.5), np.float32(1.0))
+            v2 = f(*a)
+            ctx.case({'family': 'interleaved-signatures', 'metric': name, 'args': list(a)})
+            ctx.count('theme/interleaved-signatures')
+            if not same_float(float(v1), float(v2)):
+                ctx.violation('oracle', '%s%r = %r, after calls with other argument types %r' % (name, a, v1, v2),
+                              {'family': 'interleaved-signatures', 'metric': name, 'args': list(a)})
+    # ---- (2) tiny magnitudes for the planar metrics ----
+    for q in range(30 if quick else 400):
+        sc = 2.0 ** rng.choice([-30, -60, -100, -120])
+        A, B, C = [(rng.randint(-64, 64) * sc, rng.randint(-64, 64) * sc) for _ in range(3)]
+        for name, f in fns:
+            case = {'family': 'plane', 'metric': name, 'A': list(A), 'B': list(B), 'C': list(C), 'kind': 'tiny-dyadic'}
+            ctx.case(case)
+            ctx.count('theme/plane-tiny')
+            w = plane_oracle(name, f, A, B, C)
+            if w:
+                ctx.violation('oracle', w, case)
+            lines.append('%s %s %s %s %s' % ('euclid' if name == 'euclidean' else 'manhattan', hx(A[0]), hx(B[0]), hx(A[1]), hx(B[1])))
+            cmp.append(('float', float(f(A[0], B[0], A[1], B[1])), case))
+    # ---- (2) radius equal to, and one ulp around, a whole number of cells; NumPy-scalar cell sizes ----
+    for q in range(60 if quick else 800):
+        cx = rng.choice([0.1, 0.3, 1.0, 2.5, 0.7, 30.0, 0.3048])
+        cy = cx if rng.random() < 0.5 else rng.choice([0.1, 0.3, 1.0, 2.5, 0.7])
+        k = rng.randint(1, 20)
+        base = k * cx
+        radius = rng.choice([base, math.nextafter(base, math.inf), math.nextafter(base, 0.0)])
+        ctype = rng.choice([float, float, np.float64, np.float32, int])
+        if ctype is int:
+            cx, cy = float(rng.randint(1, 3)), float(rng.randint(1, 3))
+            radius = rng.choice([float(k), math.nextafter(float(k), 0.0), math.nextafter(float(k), math.inf)])
+            acx, acy = int(cx), int(cy)
+        elif ctype is np.float32:
+            cx, cy = rng.choice([0.5, 0.25, 2.0, 1.0]), rng.choice([0.5, 0.25, 2.0, 4.0])      # exact in float32
+            radius = round(rng.uniform(0.3, 9.0), 3)
+            acx, acy = np.float32(cx), np.float32(cy)
+        else:
+            acx, acy = ctype(cx), ctype(cy)
+        case = {'family': 'circle-ulp', 'cx': cx, 'cy': cy, 'radius': radius, 'cellsize_type': ctype.__name__}
+        ctx.case(case)
+        ctx.count('theme/circle-ulp/%s' % ctype.__name__)
+        r = call(conv.circle_kernel, acx, acy, radius)
+        if r[0] == 'ok':
+            kk = np.asarray(r[1])
+            hw, hh = (kk.shape[1] - 1) // 2, (kk.shape[0] - 1) // 2
+            fl_w, fl_h = math.floor(Fraction(radius) / Fraction(cx)), math.floor(Fraction(radius) / Fraction(cy))
+            w = None
+            if abs(hw - fl_w) > 1 or abs(hh - fl_h) > 1:          # within one cell of the exact quotient (float division at a boundary)
+                w = 'half sizes (%d,%d) but radius/cellsize = (%s,%s)' % (hw, hh, float(Fraction(radius) / Fraction(cx)), float(Fraction(radius) / Fraction(cy)))
+            else:
+                w = first_diff(kk, exact_ellipse_mask(hw, hh), hw, hh)
+            if w:
+                ctx.violation('oracle', 'circle_kernel(%r,%r,%r): %s' % (acx, acy, radius, w), case)
+        else:
+            ctx.violation('oracle', 'circle_kernel(%r,%r,%r) raised %s: %s' % (acx, acy, radius, r[1], r[2]), case)
+        lines.append('circle %s %s %s' % (hx(cx), hx(cy), sx(radius_str(radius))))
+        cmp.append(('kernel', r, case))
+    # ---- (4) kernel call sequences: same call repeated, returned array edited by the caller, other parameters in between ----
+    for q in range(12 if quick else 150):
+        cx, cy, radius = rng.choice([1.0, 0.5, 2.0]), rng.choice([1.0, 0.5, 3.0]), rng.choice([3, 2.5, '4 m', '9 ft', 5])
+        inner = rng.choice([1, 0.5, '1 m'])
+        case = {'family': 'kernel-sequence', 'cx': cx, 'cy': cy, 'radius': radius, 'inner': inner}
+        ctx.case(case)
+        ctx.count('theme/kernel-sequence')
+        k1 = np.array(conv.circle_kernel(cx, cy, radius), copy=True)
+        a1 = np.array(conv.annulus_kernel(cx, cy, radius, inner), copy=True)
+        d1 = conv._get_distance(radius_str(radius))
+        tmp = conv.circle_kernel(cx, cy, radius)
+        tmp[...] = 7                                  # the caller edits what it got back
+        tmp2 = conv.annulus_kernel(cx, cy, radius, inner)
+        tmp2[...] = -3
+        conv.circle_kernel(cy * 2, cx, 6)             # other parameters in between
+        conv._get_distance('12 km')
+        k2, a2, d2 = conv.circle_kernel(cx, cy, radius), conv.annulus_kernel(cx, cy, radius, inner), conv._get_distance(radius_str(radius))
+        if not (np.array_equal(k1, k2) and np.array_equal(a1, a2) and d1 == d2):
+            ctx.violation('oracle', 'circle_kernel / annulus_kernel / _get_distance (%r,%r,%r,%r) differ between two identical calls '
+                          '(after the caller edited the first result and other calls were made)' % (cx, cy, radius, inner), case)
+        lines.append('circle %s %s %s' % (hx(cx), hx(cy), sx(radius_str(radius))))
+        cmp.append(('kernel', ('ok', k2), case))
+        lines.append('annulus %s %s %s %s' % (hx(cx), hx(cy), sx(radius_str(radius)), sx(radius_str(inner))))
+        cmp.append(('kernel', ('ok', a2), case))
+    # ---- (7) radius smaller than the cell: 1x1, 1xN, Nx1 kernels ----
+    for cx, cy, radius in ((2.0, 2.0, 1), (2.0, 0.5, 1), (0.5, 2.0, 1.9), (10, 10, '3 ft'), (1.0, 40.0, 5)):
+        case = {'family': 'large-circle', 'cx': cx, 'cy': cy, 'radius': radius}
+        ctx.case(case)
+        ctx.count('theme/degenerate-kernel')
+        check_large_circle(ctx, conv, case, lines, cmp)
+    # ---- (1,3,4,6,7) calc_cellsize: layouts, dask, derived rasters, coordinates, degenerate shapes ----
+    import dask.array as da
+    for q in range(40 if quick else 500):
+        h, w = rng.choice([(2, 2), (3, 5), (4, 7), (6, 3), (2, 9)])
+        kind = rng.choice(['F', 'strided', 'readonly', 'dask-irregular', 'dask-ones', 'dask-single', 'plain'])
+        a = np.arange(h * w, dtype=rng.choice(['float64', 'float32', 'int32', 'uint8'])).reshape(h, w)
+        if kind == 'F':
+            data = np.asfortranarray(a)
+        elif kind == 'strided':
+            data = np.zeros((2 * h, 3 * w), dtype=a.dtype)[::2, ::3]
+        elif kind == 'readonly':
+            data = a.copy()
+            data.setflags(write=False)
+        elif kind.startswith('dask'):
+            ch = {'dask-irregular': (tuple([1] + [h - 1]) if h > 1 else (h,), tuple([w - 2, 2]) if w > 2 else (w,)),
+                  'dask-ones': ((1,) * h, (1,) * w), 'dask-single': ((h,), (w,))}[kind]
+            data = da.from_array(a, chunks=ch)
+        else:
+            data = a
+        sp = rng.choice(['unit', 'frac', 'big', 'tiny', 'neg'])
+        x0, dx, y0, dy = {'unit': (0.0, 1.0, 0.0, 1.0), 'frac': (-0.25, 0.125, 10.5, 0.37), 'big': (4.0e6, 1.0e6, -7.5e6, 2.5e5),
+                          'tiny': (1.0, 2.0 ** -20, -1.0, 1.0e-6), 'neg': (-1234.5, 30.0, -99.0, 10.0)}[sp]
+        xs, ys = x0 + dx * np.arange(w), y0 + dy * np.arange(h)
+        if rng.random() < 0.5:
+            ys = ys[::-1]                       # a reversed (negative-stride) coordinate view
+        if rng.random() < 0.3:
+            xs = np.repeat(xs, 2)[::2]          # a strided coordinate view
+        dims = list(rng.choice([('y', 'x'), ('lat', 'lon')]))
+        attrs = {}
+        if rng.random() < 0.5:
+            attrs['unit'] = rng.choice(['km', 'ft', 'miles', 'm', 'mile', 'foot'])
+        if rng.random() < 0.3:
+            attrs['res'] = rng.choice([(0.5, 0.5), (30.0, -30.0), 2.0, [0.25, 4.0]])
+        raster = xr.DataArray(data, dims=dims, coords={dims[0]: ys, dims[1]: xs}, attrs=attrs)
+        ctx.count('theme/cellsize/%s/%s' % (kind, sp))
+        r1 = check_raster_cellsize(ctx, conv, raster, '%s data, %s coordinates' % (kind, sp), lines, cmp, default_unit, tbl)
+        r2 = check_raster_cellsize(ctx, conv, raster, 'the same call repeated', lines, cmp, default_unit, tbl)
+        if r1[0] == 'ok' and r2[0] == 'ok' and tuple(float(v) for v in r1[1]) != tuple(float(v) for v in r2[1]):
+            ctx.violation('oracle', 'calc_cellsize differs between two identical calls: %r vs %r' % (r1[1], r2[1]), {'family': 'cellsize-theme'})
+        # derived rasters: each is judged on its OWN attrs / coordinates
+        dk = rng.choice(['copy', 'slice2', 'assign_coords', 'astype', 'rev'])
+        if dk == 'copy':
+            d = raster.copy(deep=True)
+        elif dk == 'slice2' and h >= 3 and w >= 3:
+            d = raster.isel({dims[0]: slice(None, None, 2), dims[1]: slice(0, None, 2)})
+        elif dk == 'assign_coords':
+            d = raster.assign_coords({dims[1]: np.arange(w) * 7.0 + 3, dims[0]: np.arange(h) * -2.0})
+        elif dk == 'astype':
+            d = raster.astype('float32')
+        else:
+            d = raster.isel({dims[0]: slice(None, None, -1)})
+        if d.shape[-1] >= 2 and d.shape[-2] >= 2:
+            check_raster_cellsize(ctx, conv, d, 'raster derived by %s from an already processed one' % dk, lines, cmp, default_unit, tbl)
+    # degenerate shapes with a res attribute (no coordinate spacing exists for one row / column)
+    for shape in ((1, 1), (1, 5), (4, 1)):
+        raster = xr.DataArray(np.zeros(shape), dims=['y', 'x'], attrs={'res': (0.5, -2.0), 'unit': 'km'})
+        ctx.count('theme/cellsize/degenerate-shape')
+        check_raster_cellsize(ctx, conv, raster, 'shape %r with a res attribute' % (shape,), lines, cmp, default_unit, tbl)
+
+
+# ---------------------------------------------------------------------------
 # model comparison
 # ---------------------------------------------------------------------------
 def compare(kind, impl, mo):
@@ -1156,6 +1463,7 @@ def run(ctx):
     run_kernels(ctx, conv, lines, cmp)
     run_cellsize(ctx, conv, lines, cmp)
     run_large_kernels(ctx, conv, lines, cmp)
+    run_themes(ctx, prox, conv, lines, cmp)
     flush(ctx, lines, cmp)
     ctx.exhaustive = False
 
